@@ -58,6 +58,8 @@ struct Hist {
     op_cs0: usize,
     op_cf0: usize,
     op_old_len: usize,
+    /// number of hole punches reported by the storage tap when the operation began
+    op_punch0: usize,
 }
 
 #[derive(Default)]
@@ -99,6 +101,23 @@ fn err(sh: &Shared, m: String) {
     sh.errors.lock().unwrap().push(m);
 }
 
+/// Every hole punch of the run (offset, length), in execution order (storage tap H1; the scheduler runs one
+/// program at a time, so the order is the execution order).
+static PUNCHES: Mutex<Vec<(usize, usize)>> = Mutex::new(Vec::new());
+
+fn punch_tap(e: &rawdb::verif::Event) {
+    if let rawdb::verif::Event::Punch { off, len } = *e {
+        PUNCHES.lock().unwrap().push((off, len));
+    }
+}
+
+struct TapGuard;
+impl Drop for TapGuard {
+    fn drop(&mut self) {
+        rawdb::verif::set_tap(None);
+    }
+}
+
 /// The owner announces the contents its next operation will produce BEFORE calling the library, so
 /// that a Reader created by another program in the middle of that operation finds them in the history.
 fn begin(sh: &Shared, uid: u64, new_bytes: &[u8]) {
@@ -108,6 +127,7 @@ fn begin(sh: &Shared, uid: u64, new_bytes: &[u8]) {
         h.op_old_len = h.versions.last().map_or(0, |v| v.len());
         h.op_cs0 = cs;
         h.op_cf0 = cf;
+        h.op_punch0 = PUNCHES.lock().unwrap().len();
         h.versions.push(Arc::new(new_bytes.to_vec()));
         h.pending = true;
     }
@@ -115,21 +135,33 @@ fn begin(sh: &Shared, uid: u64, new_bytes: &[u8]) {
 
 /// true when a compaction overlapped the operation that just ended and that operation extended the
 /// region beyond its last valid page (the trigger of KF-C12-1)
-fn compaction_hit(h: &Hist, cs_now: usize, new_len: usize) -> bool {
+fn compaction_overlap(h: &Hist, cs_now: usize, new_len: usize) -> bool {
     (cs_now > h.op_cs0 || h.op_cs0 > h.op_cf0) && new_len > h.op_old_len.div_ceil(4096) * 4096
 }
 
+fn compaction_hit(h: &Hist, cs_now: usize, new_len: usize, extents: [(usize, usize); 2]) -> bool {
+    // ... and, since the punches are observable: one of them fell inside the region's extent (before or after
+    // the operation) WHILE the operation ran. A punch after the operation has ended must respect its result.
+    let punched = PUNCHES.lock().unwrap()[h.op_punch0..].iter().any(|&(off, len)| extents.iter().any(|&(s, r)| off < s + r && s < off + len));
+    (cs_now > h.op_cs0 || h.op_cs0 > h.op_cf0) && new_len > h.op_old_len.div_ceil(4096) * 4096 && punched
+}
+
 fn end(sh: &Shared, slot: &mut Slot, ok: bool) {
-    let start = slot.region.meta().start();
+    let (start, reserved) = {
+        let m = slot.region.meta();
+        (m.start(), m.reserved())
+    };
     let cs_now = sh.compact_started.load(Ordering::SeqCst);
     let mut w = sh.world.lock().unwrap();
     if let Some(h) = w.regions.get_mut(&slot.uid) {
+        let old_start = if h.start == usize::MAX { start } else { h.start };
+        let extents = [(start, reserved), (old_start, reserved)];
         h.start = start;
         h.name = slot.name.clone();
         h.pending = false;
         if !ok {
             h.versions.pop();
-        } else if compaction_hit(h, cs_now, h.versions.last().map_or(0, |v| v.len())) {
+        } else if compaction_hit(h, cs_now, h.versions.last().map_or(0, |v| v.len()), extents) {
             // KF-C12-1 (known finding): compact() punches [ceil(len), reserved) of a region between a
             // concurrent writer's data write and its length update. Excluded: that region is no longer
             // content-checked (decided here, atomically with the end of the operation); counted.
@@ -195,7 +227,7 @@ fn run_prog(t: usize, db: Database, mut slots: Vec<Option<Slot>>, ops: Vec<Op>, 
                     match db.create_region_if_needed(&name) {
                         Ok(region) => {
                             let uid = sh.next_uid.fetch_add(1, Ordering::Relaxed) as u64 + 1;
-                            sh.world.lock().unwrap().regions.insert(uid, Hist { name: name.clone(), owner: t, versions: vec![Arc::new(vec![])], removed: false, start: usize::MAX, pending: false, tainted: false, op_cs0: 0, op_cf0: 0, op_old_len: 0 });
+                            sh.world.lock().unwrap().regions.insert(uid, Hist { name: name.clone(), owner: t, versions: vec![Arc::new(vec![])], removed: false, start: usize::MAX, pending: false, tainted: false, op_cs0: 0, op_cf0: 0, op_old_len: 0, op_punch0: 0 });
                             slots[k] = Some(Slot { uid, region, name, bytes: vec![], tainted: false });
                         }
                         Err(e) => err(&sh, format!("program {t} op #{i}: create failed: {e}")),
@@ -411,7 +443,7 @@ fn run_prog(t: usize, db: Database, mut slots: Vec<Option<Slot>>, ops: Vec<Op>, 
                                 if let Some(h) = w.regions.get(&uid) {
                                     let in_flight_hit = h.pending
                                         && kf::active("KF-C12-1")
-                                        && compaction_hit(h, cs_now, h.versions.last().map_or(0, |v| v.len()));
+                                        && compaction_overlap(h, cs_now, h.versions.last().map_or(0, |v| v.len()));
                                     if h.tainted || in_flight_hit {
                                         break;
                                     }
@@ -469,6 +501,9 @@ fn run_prog(t: usize, db: Database, mut slots: Vec<Option<Slot>>, ops: Vec<Op>, 
 }
 
 pub fn run_case(case: &Case, obs: &mut Obs) -> Result<(), String> {
+    PUNCHES.lock().unwrap().clear();
+    rawdb::verif::set_tap(Some(punch_tap));
+    let _tap = TapGuard;
     let dir = Scratch::new("c10");
     let db = Database::open(&dir.path().join("db")).map_err(|e| format!("open: {e}"))?;
     let n = case.progs.len();
@@ -484,7 +519,7 @@ pub fn run_case(case: &Case, obs: &mut Obs) -> Result<(), String> {
             let bytes = pat_bytes((t as u8 + 1) * 16, 900_000 + k * 5000, 200 + 3500 * k);
             region.write(&bytes).map_err(|e| format!("prologue: {e}"))?;
             let uid = sh.next_uid.fetch_add(1, Ordering::Relaxed) as u64 + 1;
-            sh.world.lock().unwrap().regions.insert(uid, Hist { name: name.clone(), owner: t, versions: vec![Arc::new(bytes.clone())], removed: false, start: region.meta().start(), pending: false, tainted: false, op_cs0: 0, op_cf0: 0, op_old_len: 0 });
+            sh.world.lock().unwrap().regions.insert(uid, Hist { name: name.clone(), owner: t, versions: vec![Arc::new(bytes.clone())], removed: false, start: region.meta().start(), pending: false, tainted: false, op_cs0: 0, op_cf0: 0, op_old_len: 0, op_punch0: 0 });
             named.push((name.clone(), region.clone()));
             slots.push(Some(Slot { uid, region, name, bytes, tainted: false }));
         }
